@@ -384,7 +384,10 @@ impl Drop for ServerProc {
 /// warm between runs), under a file lock; the binary is copied next to the run's scratch files
 fn build_server(scratch: &std::path::Path) -> Result<std::path::PathBuf, String> {
     use std::os::unix::io::AsRawFd;
-    let target = "/tmp/verif-c29-server-target";
+    // next to the harness' own target directory (git-ignored; warmed by setup.sh; a shadow copy of
+    // /verif gets its own, pre-warmed by the rsync)
+    let target_s = format!("{}/harness/target-server", std::env::current_dir().map(|d| d.display().to_string()).unwrap_or_else(|_| ".".into()));
+    let target = target_s.as_str();
     let _ = std::fs::create_dir_all(target);
     let lock = std::fs::File::create(format!("{}.lock", target)).map_err(|e| e.to_string())?;
     unsafe {
@@ -725,7 +728,7 @@ fn main() {
     }
 
     // ---- generated stores: every storage route × legitimate, near-miss and attacker responses ----
-    let rounds = args.n(80, 3000);
+    let rounds = args.n(50, 3000);
     let others = other_entries();
     for i in 0..rounds {
         let mut r = rng.fork();
@@ -780,18 +783,16 @@ fn main() {
             // cleartext: few passwords on Argon2 entries (each costs two Argon2 runs), more elsewhere
             let is_argon = matches!(entry.map(|u| &u.stored), Some(s) if PasswordHash::new(s).is_ok());
             let mut pws: Vec<(String, &str)> = vec![(p.clone(), "correct"), (format!("{}x", p), "extended")];
-            if !is_argon || r.chance(1, 3) {
+            if !is_argon || r.chance(1, 4) {
                 pws.push(("".into(), "empty"));
                 pws.push((p.to_uppercase(), "case"));
                 pws.push((gen_text(&mut r, 12), "random"));
                 pws.push((format!("md5{}", d), "md5_response"));
             }
             if is_argon {
-                // the stored string itself always, two more attacker strings at random
+                // the stored string itself always, one more attacker string at random
                 pws.push(atk[0].clone());
-                for _ in 0..2 {
-                    pws.push(r.pick(&atk).clone());
-                }
+                pws.push(r.pick(&atk).clone());
             } else {
                 pws.extend(atk.iter().cloned());
             }
